@@ -140,60 +140,71 @@ func Load(dir string, overlay map[string][]byte) (*Program, error) {
 	if len(p.Repo) < 20 {
 		return nil, fmt.Errorf("only %d repository packages loaded (expected >= 20)", len(p.Repo))
 	}
-	// index functions of the repository
-	for fn := range ssautil.AllFunctions(prog) {
-		if fn.Pkg == nil && fn.Origin() == nil {
-			// synthetic wrappers etc. of non-generic origin
-			if fn.Object() == nil {
-				continue
-			}
-		}
-		pkg := fnPkgPath(fn)
-		if !strings.HasPrefix(pkg, modPath) {
-			continue
-		}
-		if fn.Synthetic != "" && fn.Origin() == nil && fn.Synthetic != "package initializer" {
-			continue // wrappers, bound methods, thunks
-		}
-		name := QualName(fn)
-		if old, ok := p.funcs[name]; ok {
-			// prefer instantiation with body
-			if old.Blocks != nil {
-				continue
-			}
-		}
-		p.funcs[name] = fn
-	}
-	// methods of (possibly generic) named types that nothing instantiates
-	for _, pk := range p.Repo {
-		sc := pk.Types.Scope()
-		for _, n := range sc.Names() {
-			tn, ok := sc.Lookup(n).(*types.TypeName)
-			if !ok {
-				continue
-			}
-			named, ok := tn.Type().(*types.Named)
-			if !ok {
-				continue
-			}
-			for i := 0; i < named.NumMethods(); i++ {
-				f := prog.FuncValue(named.Method(i))
-				if f == nil || f.Blocks == nil {
+	// index functions of the repository (twice when functions were renamed: the
+	// second pass names them, and their closures, after the known function they
+	// replace)
+	index := func() {
+		p.funcs = map[string]*ssa.Function{}
+		for fn := range ssautil.AllFunctions(prog) {
+			if fn.Pkg == nil && fn.Origin() == nil {
+				// synthetic wrappers etc. of non-generic origin
+				if fn.Object() == nil {
 					continue
 				}
-				var add func(f *ssa.Function)
-				add = func(f *ssa.Function) {
-					name := QualName(f)
-					if old, ok := p.funcs[name]; !ok || old.Blocks == nil {
-						p.funcs[name] = f
-					}
-					for _, af := range f.AnonFuncs {
-						add(af)
-					}
+			}
+			pkg := fnPkgPath(fn)
+			if !strings.HasPrefix(pkg, modPath) {
+				continue
+			}
+			if fn.Synthetic != "" && fn.Origin() == nil && fn.Synthetic != "package initializer" {
+				continue // wrappers, bound methods, thunks
+			}
+			name := QualName(fn)
+			if old, ok := p.funcs[name]; ok {
+				// prefer instantiation with body
+				if old.Blocks != nil {
+					continue
 				}
-				add(f)
+			}
+			p.funcs[name] = fn
+		}
+		// methods of (possibly generic) named types that nothing instantiates
+		for _, pk := range p.Repo {
+			sc := pk.Types.Scope()
+			for _, n := range sc.Names() {
+				tn, ok := sc.Lookup(n).(*types.TypeName)
+				if !ok {
+					continue
+				}
+				named, ok := tn.Type().(*types.Named)
+				if !ok {
+					continue
+				}
+				for i := 0; i < named.NumMethods(); i++ {
+					f := prog.FuncValue(named.Method(i))
+					if f == nil || f.Blocks == nil {
+						continue
+					}
+					var add func(f *ssa.Function)
+					add = func(f *ssa.Function) {
+						name := QualName(f)
+						if old, ok := p.funcs[name]; !ok || old.Blocks == nil {
+							p.funcs[name] = f
+						}
+						for _, af := range f.AnonFuncs {
+							add(af)
+						}
+					}
+					add(f)
+				}
 			}
 		}
+
+	}
+	index()
+	if resolveRenames(p) {
+		anonRoleCache = map[*ssa.Function]string{}
+		index()
 	}
 	return p, nil
 }
@@ -221,6 +232,157 @@ func shortPkg(path string) string {
 	return strings.TrimPrefix(path, modPath+"/")
 }
 
+// funcAlias: functions of the current tree that stand for a known function
+// under a new name (see resolveRenames).
+var funcAlias = map[*ssa.Function]string{}
+
+// sigKey renders a signature without parameter names.
+func sigKey(sig *types.Signature) string {
+	var b strings.Builder
+	for i := 0; i < sig.Params().Len(); i++ {
+		b.WriteString(types.TypeString(sig.Params().At(i).Type(), nil) + ",")
+	}
+	if sig.Variadic() {
+		b.WriteString("...")
+	}
+	b.WriteString("->")
+	for i := 0; i < sig.Results().Len(); i++ {
+		b.WriteString(types.TypeString(sig.Results().At(i).Type(), nil) + ",")
+	}
+	return b.String()
+}
+
+// extCallees: the sorted external callees (and builtins) of a function: a
+// fingerprint that does not change when repository functions are renamed.
+func extCallees(fn *ssa.Function) string {
+	set := map[string]bool{}
+	for _, b := range fn.Blocks {
+		for _, in := range b.Instrs {
+			ci, ok := in.(ssa.CallInstruction)
+			if !ok {
+				continue
+			}
+			cc := ci.Common()
+			if bi, ok := cc.Value.(*ssa.Builtin); ok {
+				set["builtin:"+bi.Name()] = true
+				continue
+			}
+			if cc.IsInvoke() {
+				set["invoke:"+cc.Method.Name()] = true
+				continue
+			}
+			if f := cc.StaticCallee(); f != nil && !strings.HasPrefix(fnPkgPath(f), modPath) {
+				set[shortenExt(f.String())] = true
+			}
+		}
+	}
+	var ks []string
+	for k := range set {
+		ks = append(ks, k)
+	}
+	sort.Strings(ks)
+	return strings.Join(ks, ";")
+}
+
+// funcKey: what is recorded per known function: signature # external callees.
+func funcKey(fn *ssa.Function) string {
+	if fn.Signature == nil {
+		return ""
+	}
+	return sigKey(fn.Signature) + "#" + extCallees(fn)
+}
+
+// resolveRenames: a known function that no longer exists and a new function
+// with the same package, receiver and signature — exactly one of each — are the
+// same function under a new name; it keeps its known name for the rules.
+func resolveRenames(p *Program) bool {
+	prefixOf := func(name string) string {
+		if i := strings.LastIndex(name, "."); i >= 0 {
+			return name[:i+1]
+		}
+		return ""
+	}
+	sigOf := func(key string) string {
+		if i := strings.Index(key, "#"); i >= 0 {
+			return key[:i]
+		}
+		return key
+	}
+	type cand struct {
+		name string
+		key  string
+		fn   *ssa.Function
+	}
+	missing := map[string][]cand{} // prefix|sig -> known names without function
+	for name, key := range knownFuncs {
+		if strings.Contains(name, "$") || key == "" {
+			continue
+		}
+		if _, ok := p.funcs[name]; !ok {
+			k := prefixOf(name) + "|" + sigOf(key)
+			missing[k] = append(missing[k], cand{name: name, key: key})
+		}
+	}
+	if len(missing) == 0 {
+		return false
+	}
+	fresh := map[string][]cand{}
+	for name, fn := range p.funcs {
+		if fn.Parent() != nil || fn.Signature == nil {
+			continue
+		}
+		if _, known := knownFuncs[name]; known {
+			continue
+		}
+		k := prefixOf(name) + "|" + sigKey(fn.Signature)
+		fresh[k] = append(fresh[k], cand{name: name, key: funcKey(fn), fn: fn})
+	}
+	found := false
+	for k, ms := range missing {
+		fs := fresh[k]
+		usedF := map[int]bool{}
+		usedM := map[int]bool{}
+		// first by identical fingerprint (unique on both sides), then what is left
+		for mi, m := range ms {
+			match, n := -1, 0
+			for fi, f := range fs {
+				if !usedF[fi] && f.key == m.key {
+					match, n = fi, n+1
+				}
+			}
+			if n == 1 {
+				dup := 0
+				for _, m2 := range ms {
+					if m2.key == m.key {
+						dup++
+					}
+				}
+				if dup == 1 {
+					funcAlias[fs[match].fn] = m.name
+					usedF[match], usedM[mi] = true, true
+					found = true
+				}
+			}
+		}
+		var restM, restF []int
+		for mi := range ms {
+			if !usedM[mi] {
+				restM = append(restM, mi)
+			}
+		}
+		for fi := range fs {
+			if !usedF[fi] {
+				restF = append(restF, fi)
+			}
+		}
+		if len(restM) == 1 && len(restF) == 1 {
+			funcAlias[fs[restF[0]].fn] = ms[restM[0]].name
+			found = true
+		}
+	}
+	return found
+}
+
 // QualName gives a stable, position-free name: "<pkg-rel-path>.<RelString>",
 // e.g. "syncer.(*NativeIterator).Merge", "syncer.(*Syncer).LoadOnce$update".
 // Generic instantiations are named after their origin.
@@ -235,6 +397,9 @@ func QualName(fn *ssa.Function) string {
 	f := fn
 	if o := fn.Origin(); o != nil {
 		f = o
+	}
+	if a, ok := funcAlias[f]; ok {
+		return a
 	}
 	pkg := fnPkgPath(f)
 	var tp *types.Package
@@ -382,6 +547,9 @@ func anonRole(parent, fn *ssa.Function) string {
 		name := ""
 		if f := c.StaticCallee(); f != nil {
 			name = f.String()
+			if a, ok := funcAlias[f]; ok {
+				name = a // a renamed repository function keeps its known name
+			}
 		}
 		switch {
 		case strings.HasSuffix(name, "lmdb.Env).Update") || strings.HasSuffix(name, "Update$bound"):
